@@ -4,7 +4,8 @@ from . import pipelines
 
 def run(tier, seed, replay):
     stages = [("mc/MC_C08.tla", "mc/MC_C08_%s.cfg" % tier), ("mc/MC_C08.tla", "mc/MC_C08_three.cfg"),
-              ("mc/MC_C08.tla", "mc/MC_C08_square.cfg"), ("mc/MC_C08.tla", "mc/MC_C08_nested.cfg")]
+              ("mc/MC_C08.tla", "mc/MC_C08_square.cfg"), ("mc/MC_C08.tla", "mc/MC_C08_nested.cfg"),
+              ("mc/MC_C09.tla", "mc/MC_C09_%s.cfg" % tier)]      # overlays of FILTERED sources (and filters over overlays)
 
     def nontrivial(c):
         # at least two sources overlap on some coordinate and differ in extent
